@@ -24,6 +24,18 @@ if wave and wave >= '3':
               'callee or dropped on one of several call sites, a default that differs between two entry points, an error path that\n'
               'leaves an object half-updated, a loop that stops early or skips the last element, a sort that is not stable or is applied\n'
               'to only some of several aligned arrays, an accumulation in the wrong dtype or with a misplaced normalisation.\n')
+if wave and wave >= '4':
+    import glob, os
+    prev = []
+    for d in sorted(glob.glob('/verif/seeded/%s_*' % pid)):
+        try:
+            m = json.load(open(os.path.join(d, 'meta.json')))
+            prev.append('  - ' + ' '.join((m.get('summary') or '').split())[:260])
+        except Exception:
+            pass
+    if prev:
+        EXTRA += ('Earlier rounds already produced the following changes for this property; all of them are caught.  Do NOT repeat them\n'
+                  'or close variants of them - pick other functions, other code paths, other mechanisms:\n' + '\n'.join(prev) + '\n')
 print('''You are testing how well a verification suite protects a Python code base.  The code base is TauREx 3
 (exoplanet atmospheric retrieval code).  You have your own scratch git worktree of it at {wt} (a detached checkout; work ONLY there;
 never touch /repo or /verif, never read anything under /verif).  Run Python with /venv/bin/python; to make it import YOUR worktree run
